@@ -47,6 +47,7 @@ def stream_key(node):
 def conflicts(schema, doc):
     NonNull, List, Object, Interface, Union = _k()
     frags = {d.name.value: d for d in doc.definitions if type(d).__name__ == "FragmentDefinitionNode"}
+    from graphql.type import TypeNameMetaFieldDef as TYPENAME  # the declared signature of __typename, read as data
 
     def named(t):
         while isinstance(t, (NonNull, List)):
@@ -61,7 +62,12 @@ def conflicts(schema, doc):
             k = type(s).__name__
             if k == "FieldNode":
                 fdef = None
-                if parent is not None and hasattr(parent, "fields") and s.name.value != "__typename":
+                if s.name.value == "__typename":
+                    # the meta field exists on every composite type and returns String! (specification 4.1 / 5.3.2: the return
+                    # type of the field takes part in SameResponseShape like any other)
+                    if isinstance(parent, (Object, Interface, Union)):
+                        fdef = TYPENAME
+                elif parent is not None and hasattr(parent, "fields"):
                     fdef = parent.fields.get(s.name.value)
                 out.append((parent, s, fdef))
             elif k == "InlineFragmentNode":
